@@ -7,6 +7,9 @@ cd "$ROOT/harness"
 cp /repo/go.sum go.sum 2>/dev/null || true
 go build -tags verif ./... 
 mkdir -p "$ROOT/evidence" "$ROOT/replays"
+# stand-in for fusermount3 (not installed here): lets the real-SQLite stages mount LiteFS through /dev/fuse.
+# Without it (or without /dev/fuse) those stages skip themselves and say so in the evidence.
+cc -O2 -o "$ROOT/bin/fusermount3" "$ROOT/tools/fusermount3.c" 2>/dev/null || echo "note: fusermount3 stand-in not built; real-SQLite stages will be skipped"
 S=$(mktemp -d /dev/shm/verif-setup-XXXXXX 2>/dev/null || mktemp -d /var/tmp/verif-setup-XXXXXX)
 trap 'rm -rf "$S"' EXIT
 cp "$ROOT"/spec/*.tla "$S"/
